@@ -5,8 +5,9 @@
 (*   L.entries  : <<id, lemma>>                                               *)
 (*   L.senses   : <<id, entry, synset>>                                       *)
 (*   L.synsets  : <<id, ili, pos, hasIliDef, <<definition texts>>, <<example  *)
-(*                  texts>>>>   (texts as the harness classifies them:        *)
-(*                  "" = blank after stripping)                               *)
+(*                  texts>>>>   (the texts as loaded)                         *)
+(*   L.blank    : the texts among them that are empty after stripping white   *)
+(*                space (strings are atoms for TLC: the harness classifies)   *)
 (*   L.srels / L.ssrels : sense / synset relations <<source, type, target,    *)
 (*                  dc:type or "~">>                                          *)
 (* All of these are sequences (duplicates matter).                            *)
@@ -54,8 +55,8 @@ W302(L) == {ss[1] : ss \in {ss \in Rng(L.synsets) : RealIli(ss) /\
               Cardinality({k \in DOMAIN L.synsets : L.synsets[k][2] = ss[2]}) > 1}}
 W303(L) == {ss[1] : ss \in {ss \in Rng(L.synsets) : ss[2] = "in" /\ ~ss[4]}}
 W304(L) == {ss[1] : ss \in {ss \in Rng(L.synsets) : RealIli(ss) /\ ss[4]}}
-W305(L) == {ss[1] : ss \in {ss \in Rng(L.synsets) : "" \in Rng(ss[5])}}
-W306(L) == {ss[1] : ss \in {ss \in Rng(L.synsets) : "" \in Rng(ss[6])}}
+W305(L) == {ss[1] : ss \in {ss \in Rng(L.synsets) : Rng(ss[5]) \cap Rng(L.blank) # {}}}
+W306(L) == {ss[1] : ss \in {ss \in Rng(L.synsets) : Rng(ss[6]) \cap Rng(L.blank) # {}}}
 AllDefs(L) == UNION {{<<k, j>> : j \in DOMAIN L.synsets[k][5]} : k \in DOMAIN L.synsets}
 DefText(L, p) == L.synsets[p[1]][5][p[2]]
 W307(L) == {ss[1] : ss \in {ss \in Rng(L.synsets) : \E t \in Rng(ss[5]) :
